@@ -66,7 +66,10 @@ def run_job(job):
         res["reason"] = "goto-instrument failed: " + (se + so)[-3000:]
         return res
     flags = [f for f in DEFAULT_CHECKS if f not in spec.noflags] + ["--no-" + f[2:] for f in spec.noflags] + list(spec.flags)
-    cmd3 = ["cbmc", base + ".b.gb", "--json-ui", "--trace"] + flags
+    # first run in TEXT mode: --json-ui always builds a counterexample trace for every failed property, and the canary at
+    # the end of every harness fails by design -- its trace over symbolic-size objects can take minutes (1.6 s vs 400 s
+    # for makeString). Traces are fetched in a second (JSON) run, only for the obligations that failed.
+    cmd3 = ["cbmc", base + ".b.gb"] + flags
     if job.get("unwind"):
         cmd3 += ["--unwind", str(job["unwind"]), "--unwinding-assertions"]
         res["bounded"] = "unwind %s" % job["unwind"]
@@ -86,20 +89,22 @@ def run_job(job):
         res["status"] = "error"
         res["reason"] = "cbmc terminated abnormally (exit status %s; memory limit 12 GB): %s" % (rc, (se[-600:] or so[-600:]))
         return res
-    try:
-        msgs = json.loads(so)
-    except Exception as ex:
-        res["status"] = "error"
-        res["reason"] = "cbmc output not JSON (rc=%s): %s" % (rc, (so[-1500:] + se[-1500:]))
-        return res
-    log = []
     results = None
-    for m in msgs:
-        if "messageText" in m:
-            log.append(m["messageText"])
-        if "result" in m:
-            results = m["result"]
-    logtxt = "\n".join(log)
+    cur_fn, cur_file = "", ""
+    head = so
+    if "** Results:" in so:
+        head, body = so.split("** Results:", 1)
+        results = []
+        for line in body.split("\n"):
+            m = re.match(r"^(\S+) function (\S+)\s*$", line)
+            if m:
+                cur_file, cur_fn = m.group(1), m.group(2)
+                continue
+            m = re.match(r"^\[(.+?)\] (?:line (\d+) )?(.*): (SUCCESS|FAILURE|UNKNOWN|ERROR)\s*$", line)
+            if m:
+                results.append(dict(property=m.group(1), description=m.group(3), status=m.group(4),
+                                    sourceLocation=dict(line=m.group(2) or "0", function=cur_fn, file=cur_file)))
+    logtxt = head + "\n" + se
     res["log_tail"] = logtxt[-2000:]
     for bad in ("ignoring forall", "ignoring exists", "Parse Error", "SMT2 solver returned error", "error running SMT2"):
         if bad in logtxt:
@@ -110,6 +115,26 @@ def run_job(job):
         res["status"] = "error"
         res["reason"] = "no result in cbmc output: " + logtxt[-2000:]
         return res
+    failing = [r["property"] for r in results if r["status"] == "FAILURE" and "VERIF_CANARY" not in r.get("description", "")
+               and not r["property"].startswith("__CPROVER_") and ".unwind." not in r["property"]]
+    if failing:
+        cmd4 = [cmd3[0], cmd3[1], "--json-ui", "--trace"] + cmd3[2:]
+        for pid in failing[:6]:
+            cmd4 += ["--property", pid]
+        rc4, so4, se4, dt4 = run(cmd4, min(spec.timeout, 600))
+        res["cmds"].append(" ".join(cmd4))
+        try:
+            traces = {}
+            for m in json.loads(so4):
+                if "result" in m:
+                    for r in m["result"]:
+                        if r.get("trace"):
+                            traces[r["property"]] = r["trace"]
+            for r in results:
+                if r["property"] in traces:
+                    r["trace"] = traces[r["property"]]
+        except Exception:
+            pass
     canary_seen = False
     n_fail = n_unknown = n_unwind = 0
     want_loops = job["loops"]
